@@ -155,6 +155,30 @@ theorem C12_add_remove_retype_changes_struct_sig (c : Cfg) (path : Bytes) (i₁ 
   · intro v j ds
     simp [obsS, obs, Obs.toS]
 
+/-- "… anywhere beneath that directory … at any depth": if the observation of ONE entry's subtree changes (the entry
+is visible and its name is unique in its directory), then (2, 4) the observation of the enclosing directory changes —
+so by iteration the change reaches every ancestor up to the input directory — and (1, 3) when the enclosing
+directory is the input directory its signature changes, whatever happens to the stat records on the way. -/
+theorem C12_change_at_any_depth (c : Cfg) (path : Bytes) (n : Name) (t₁ t₂ : Tree) (pre post : List (Name × Tree))
+    (i₁ i₂ : Info) (hv : c.hidden n = false) (hu : n ∉ names (pre ++ post))
+    (h₁ : Listed c (.dir i₁ (pre ++ (n, t₁) :: post))) (h₂ : Listed c (.dir i₂ (pre ++ (n, t₂) :: post))) :
+    (obs c t₁ ≠ obs c t₂ →
+      treeSig c path (.dir i₁ (pre ++ (n, t₁) :: post)) ≠ treeSig c path (.dir i₂ (pre ++ (n, t₂) :: post))) ∧
+    (obs c t₁ ≠ obs c t₂ → obs c (.dir i₁ (pre ++ (n, t₁) :: post)) ≠ obs c (.dir i₂ (pre ++ (n, t₂) :: post))) ∧
+    (obsS c t₁ ≠ obsS c t₂ →
+      structSig c path (.dir i₁ (pre ++ (n, t₁) :: post)) ≠ structSig c path (.dir i₂ (pre ++ (n, t₂) :: post))) ∧
+    (obsS c t₁ ≠ obsS c t₂ → obsS c (.dir i₁ (pre ++ (n, t₁) :: post)) ≠ obsS c (.dir i₂ (pre ++ (n, t₂) :: post))) := by
+  refine ⟨fun hne hs => ?_, obs_child_lifts c n t₁ t₂ pre post i₁ i₂ hv hu, fun hne hs => ?_,
+    obsS_child_lifts c n t₁ t₂ pre post i₁ i₂ hv hu⟩
+  · have h := (C12_tree_sig_injective c path i₁ i₂ _ _ h₁ h₂).1 hs
+    apply obs_child_lifts c n t₁ t₂ pre post i₁ i₁ hv hu hne
+    simp only [observe, obs, Obs.dropRootInfo, Obs.dir.injEq] at h
+    simp only [obs, h.2]
+  · have h := (C12_struct_sig c path i₁ i₂ _ _ h₁ h₂).1 hs
+    apply obsS_child_lifts c n t₁ t₂ pre post i₁ i₁ hv hu hne
+    simp only [observeStruct, observe, obs, Obs.dropRootInfo, Obs.toS, SObs.dir.injEq] at h
+    simp only [obsS, obs, Obs.toS, h.2]
+
 /-- "exclusion patterns hide exactly the matching names": a name is in a directory's listing iff it is an entry of
 the directory and no pattern matches it (`fnmatch` abstract; with no patterns nothing is hidden). -/
 theorem C12_filter_exact (c : Cfg) (cs : List (Name × Tree)) (n : Name) :
